@@ -163,8 +163,8 @@ def isa_classes():
         if issubclass(c, ArtificialInstruction):
             continue
         first = syn.syntax[0] if syn.syntax and isinstance(syn.syntax[0], str) else ""
-        if first in DATA_MNEMONICS:
-            continue
+        if first in DATA_MNEMONICS or c.__module__.endswith("data_instructions"):
+            continue  # data / section directives, not instructions
         ident = "%s(%s)" % (c.__name__, ",".join(_abbr(a._cls) for a in syn.formal_arguments))
         k = names.get(ident, 0)
         names[ident] = k + 1
@@ -295,6 +295,8 @@ def enumerate_instances(cls, rng, level):
         haslab = any(s.kind == "l" for s in slots)
 
         def inst(vals, tag, sym=PLACE + 0x40, place=PLACE):
+            if any(getattr(v, "name", "") in ("ah", "ch", "dh", "bh") for v in vals.values()):
+                tag += "+hi8"  # classification of the input: a legacy high-byte register is an operand
             return {"mode": mname, "rm": rmname, "ctor": mode, "slots": slots, "values": dict(vals), "tag": tag,
                     "sym": sym if haslab else 0, "place": place if haslab else 0}
 
@@ -307,7 +309,7 @@ def enumerate_instances(cls, rng, level):
             for r in reg_pool(s.cls):
                 x = dict(base)
                 x[s.path] = r
-                yield inst(x, "%s:sweep" % ".".join(s.path))
+                yield inst(x, "sweep.%s" % ".".join(s.path))
         if level >= 1 and len(rslots) > 1:
             pools = [reg_pool(s.cls) for s in rslots]
             for j in range(max(len(p) for p in pools)):
@@ -324,7 +326,7 @@ def enumerate_instances(cls, rng, level):
                 elif s.role == "RmAbs":
                     vals, lo, hi, what = (ADDRS if level >= 1 else [0, 2 ** 31 - 1]), -2 ** 31, 2 ** 31 - 1, "addr"
                 else:
-                    vals, lo, hi, what = (IMMS if level >= 1 else [-1, 0, 255, 2 ** 31 - 1]), None, None, "imm"
+                    vals, lo, hi, what = IMMS, None, None, "imm"
                 bases = [None]
                 if s.role in ("RmMemDisp", "RmMemDisp2") and level >= 1:
                     bases = SPECIAL_BASES
@@ -337,13 +339,13 @@ def enumerate_instances(cls, rng, level):
                                 if t.role == s.role and t.path[-1] in ("reg", "regb"):
                                     x[t.path] = next(r for r in reg_pool(t.cls) if r.name == bname)
                         cat = what if lo is None else "%s-%s" % (what, "in-range" if lo <= v <= hi else "out-of-range")
-                        yield inst(x, "%s:%s" % (".".join(s.path), cat))
+                        yield inst(x, "%s.%s" % (cat, ".".join(s.path)))
             elif s.kind == "l":
                 dists = REL_DISTANCES if level >= 1 else [0, -128, 127, 0x12345]
                 for d in dists:
-                    yield inst(base, "%s:distance" % ".".join(s.path), sym=PLACE + d)
+                    yield inst(base, "distance.%s" % ".".join(s.path), sym=PLACE + d)
                 for a in (SYMS if level >= 1 else SYMS[:3]):
-                    yield inst(base, "%s:address" % ".".join(s.path), sym=a)
+                    yield inst(base, "address.%s" % ".".join(s.path), sym=a)
         if level >= 2:
             for _ in range(16):
                 x = dict(base)
@@ -385,9 +387,7 @@ def instances(rng, thorough, only_classes=None):
 
 
 def _sym_fields(it):
-    sym = it["sym"]
-    return {"place": it["place"], "sym": sym if 0 <= sym < 2 ** 30 else 0, "symfits": 0 <= sym < 2 ** 30,
-            "sym16": enc.limbs(sym, 16)}
+    return {"place": it["place"], "sym16": enc.limbs(it["sym"], 16)}
 
 
 def enc_records(prop, rng, thorough, only_classes=None):
@@ -433,7 +433,7 @@ def rw_records(prop, rng, thorough, only_classes=None):
         if ins is None:
             skip("not constructible:%s:%s" % (cname, err))
             continue
-        if it["tag"].endswith("out-of-range") or it["tag"].endswith(":address") or it["tag"].endswith(":distance"):
+        if "out-of-range" in it["tag"] or it["tag"].startswith("address.") or it["tag"].startswith("distance."):
             continue  # the register sets do not depend on the integer operands: one in-range value each is enough
         try:
             uses, defs, clob = _names(ins.used_registers), _names(ins.defined_registers), _names(getattr(ins, "clobbers", []))
